@@ -38,6 +38,7 @@ type Sim struct {
 	lean       bool
 	teardownCh chan struct{}
 	diceIdx    int
+	yieldIdx   int
 	nextObj    int
 	opID       int
 	apiID      int
@@ -59,6 +60,7 @@ type instRT struct {
 	watchOrd   int
 	watchCalls int
 	healthN    int
+	logCount   map[string]int
 	healthNA   atomic.Int64 // lean mode
 	curObj     atomic.Pointer[objRT]
 	startSem   chan struct{}
@@ -713,7 +715,7 @@ func Run(t *testing.T, p *Plan) *Trace {
 		tr.StartAt = s.t0
 		s.store = refkv.New(p.StoreTTL(), time.Now)
 		for i := range p.Instances {
-			s.insts = append(s.insts, &instRT{s: s, idx: i, spec: &p.Instances[i], opCount: map[string]int{}, startSem: make(chan struct{}, 1)})
+			s.insts = append(s.insts, &instRT{s: s, idx: i, spec: &p.Instances[i], opCount: map[string]int{}, logCount: map[string]int{}, startSem: make(chan struct{}, 1)})
 		}
 		leader.VerifRandHook = s.dice
 		defer func() { leader.VerifRandHook = nil }()
